@@ -789,7 +789,10 @@ pub mod c20 {
     fn bitmap_pdu(srv: &Server, k: usize, big: u8) -> (Vec<u8>, Vec<Vec<u8>>) {
         if big == 3 || (big == 4 && k % 4 == 1) {
             let px = |i: usize| -> Rect {
-                Rect { left: (k % 500) as u16, top: (i % 500) as u16, right: (k % 500) as u16, bottom: (i % 500) as u16, width: 1, height: 1, bpp: 32, flags: 0, data: vec![k as u8, (k >> 8) as u8, i as u8, 0xC0 | ((i >> 8) as u8 & 0x3f)] }
+                // all three ways a rectangle's data may be announced: raw, compressed without and with its compression header
+                // (the bytes are forwarded as they are; nothing is decoded on this path)
+                let flags = if big == 3 { [0u16, 0x0401, 0x0001][(k + i) % 3] } else { 0 };
+                Rect { left: (k % 500) as u16, top: (i % 500) as u16, right: (k % 500) as u16, bottom: (i % 500) as u16, width: 1, height: 1, bpp: 32, flags, data: vec![k as u8, (k >> 8) as u8, i as u8, 0xC0 | ((i >> 8) as u8 & 0x3f)] }
             };
             let mut body = B::new();
             let mut stamps = Vec::new();
